@@ -749,8 +749,8 @@ func cmdCheck(prop, tier string, phases []phase) int {
 func round1(f float64) float64 { return float64(int64(f*10+0.5)) / 10 }
 
 var rules = map[string]string{
-	"C04": "Each evaluation is one seeded history (mode H): 1-3 generated documents, 1-5 generated expressions compiled ONCE, 6-60 operations (Select, Evaluate, MoveNext on any live iterator, abandon, probe, navigator-panic at the k-th navigator call, cache swap) on those shared *Expr; every value / node id is compared with the same call on a freshly compiled expression run alone, and all reference outcomes are recomputed at the end. A run counts as non-trivial when at least one of its shared expressions had two or more operations compared with the oracle; distinct = distinct scenario hash (documents, expression texts, operation list, configuration).",
-	"C05": "Each evaluation is one seeded goroutine run (mode G): 2-4 tasks (real goroutines, exactly one runnable at a time, the next chosen by the seeded scheduler at navigator / lock / pool / loader / function-entry yield points) executing Select / Evaluate / Compile programs on 1-4 shared *Expr. Oracles: every operation's outcome equals its solo outcome; step budget; modelled-lock deadlock; and, in the race build, the Go race detector made schedule-deterministic (scheduler hand-offs hidden with RaceDisable). A run is non-trivial when at some task switch another task was in the middle of an operation on the same *Expr; distinct = distinct (scenario hash, schedule hash).",
+	"C04": "Each evaluation is one seeded history (mode H): 1-3 generated documents, 1-5 generated expressions compiled ONCE, 6-60 operations (Select, Evaluate, MoveNext on any live iterator, abandon, probe, navigator-panic at the k-th navigator call, cache swap) on those shared *Expr; every value / node id is compared with the same call on a freshly compiled expression run alone, all reference outcomes are recomputed at the end, and one run in a hundred recomputes them in pristine child processes. Swarm options per run: client cache of tiny capacity, pool variant, CompileWithNS (two binding variants), MustCompile, a focus function fed context-dependent arguments, documents over a tight value alphabet. A run counts as non-trivial when at least one of its shared expressions had two or more operations compared with the oracle; distinct = distinct scenario hash (documents, expression texts, operation list, configuration).",
+	"C05": "Each evaluation is one seeded goroutine run (mode G): 2-4 tasks (real goroutines, exactly one runnable at a time, the next chosen by the seeded scheduler at navigator / lock / pool / loader / function-entry yield points) executing Select / Evaluate / Compile programs on 1-4 shared *Expr. Oracles: every operation's outcome equals its solo outcome; step budget; modelled-lock deadlock (with Go's rule that a pending Lock blocks later RLocks); and, in the race build, the Go race detector made schedule-deterministic (scheduler hand-offs hidden with RaceDisable). Swarm options: compile storms (only concurrent Compile / CompileWithNS calls, optionally after a warm-up and an in-place re-binding of the namespace map), regex-focused runs, navigator panics, cold-process runs (one in eight: executed in a pristine child process, references computed after the concurrent phase). A run is non-trivial when at some task switch another task was in the middle of an operation on the same *Expr; distinct = distinct (scenario hash, schedule hash).",
 	"C12": "Each evaluation is one seeded iterator-protocol history (mode H): 1-3 live iterators from Select and Evaluate over generated node-set expressions (half from the flat fragment), stepped by MoveNext / Current / walk-a-copy / extra MoveNext after false / abandon, each call checked against a list-cursor model whose sequence is the solo Select result; plus, per (expression, document, context), the relations Evaluate==Select, count()==length, reverse()==reversed and strict document order for flat paths. Non-trivial: an iterator over a sequence of two or more nodes was advanced, or the relations were checked on such a sequence; distinct = distinct scenario hash.",
 	"C16": "Each evaluation is one seeded cache run: mode H = a sequential history of 5-60 get / matches() / replace() / bad-pattern Compile operations over 2-8 generated patterns against a client cache of capacity 0-5 (or the default cache), with loader failures and cache swaps; mode G = 2-4 tasks doing the same concurrently under the seeded scheduler, which interleaves inside the unlocked window (the harness loader is a yield point). Invariants I1-I6 (exact, bounded, failures not remembered, bad constant pattern rejected, race/deadlock-free, stored implies loaded) are checked after every step (H) or at every scheduling point (G, plain build), data results against Go's regexp; race build adds the race oracle. Non-trivial: H: at least 3 operations over at least 2 keys; G: a task switch while another task is inside an operation on the same key. Distinct = distinct (scenario hash, schedule hash).",
 }
